@@ -156,6 +156,16 @@ for _p in ("C03", "C05", "C36"):
     _aug(_p, " + TLC: MC_Grammar (every statement shape x every choice of surface syntax, rendered and read back inside the specification)",
          " MC_Grammar model-checks, inside the specification, that reading the rendered bytes of each of 16 statement shapes under every choice of surface syntax (keyword/register case, colon, label on its own line, five number notations incl. negative and zero-padded forms, spacing, trailing comment, LF/CRLF, 0-2 labels: 15 360 renderings) with Grammar!ParseProgram gives back exactly the statement and the span of its nucleus.")
 
+_aug("C12", " + TLC: MC_TrapMode (every user program of <= 2/3 fragments x 6 endings run on the specification's machine with the real OS image under virtual and real traps, compared as C12 says)",
+     " Two of three recorded programs are generated (arithmetic, data cells, PUTS/OUT/PUTSP/GETC/IN, nested subroutines keeping R7 on the stack, counted loops, push/pop; HALT or one of five faulting endings). MC_TrapMode model-checks the statement inside the specification: every program of up to 2 (thorough: 3) position-independent fragments out of 9 followed by each of 6 endings runs under virtual and under real traps on the real OS image; halting programs must give the same output, R0-R5 and user memory and stop through the MCR, faulting ones print the OS message after the same output and halt.")
+for _p in ("C17", "C19"):
+    _aug(_p, " + TLC: ObjFormat, the binary format as a specification (MC_ObjFormat: round trip over an object universe in every table order, reader total on every damaged file of <= 2/3 chunks; TV_Fmt: real writer/reader against BinWrite/BinRead)",
+         " ObjFormat transcribes the binary format: BinRead (chunk grammar, little-endian fields, 64-bit quantities as 16-bit limbs, strict UTF-8, last-wins maps, line blocks disjoint and ending below 2^64) and BinWrite over any order of the hash-map tables. MC_ObjFormat model-checks that every object of a universe of about 6 900 objects reads back as itself in every table order, and that the reader is total on every file of up to 2 (thorough: 3) chunks out of 18 cut at any length with one byte replaced (700 k / 18 M files), whatever it accepts being written and read back equal. TV_Fmt gives the real writer's bytes of assembled and linked objects to BinRead (WrittenForView) and compares the real reader with BinRead on random, mutated and adversarially structured files (accept/reject and the object built), then the real writer's output for every accepted object.")
+_aug("C28", " + one machine stepped 8 700 / 70 000 times in a row (TV_Machine 'long')",
+     " A `long` leg steps one simulator 8 700 (thorough: 70 000) times (prologue executed once, long loop, rare excursions) so that whatever the observer keeps across its per-step clear is exposed.")
+_aug("C01", "; the statements read are required to equal the generator's intent (`written`)", " Every generated program travels with the statements the generator meant; `written` requires the real parser's statements to equal them, so the image is the encoding of the source text and not only of the parser's output.")
+_aug("C11", "; routines are also interrupted by a handler that prints through the OS, and run against recurring busy windows of display and keyboard", "")
+
 def main():
     props = [json.loads(l) for l in open(os.path.join(ROOT, "properties.jsonl"))]
     done = sorted(check.CHECKS)
